@@ -32,7 +32,7 @@ ASSUMPTIONS = [
     "document facts (clean? has failures? fix changes bytes?) come from solo reference executions of each document with the same configuration",
     "outcomes the table does not mention are not judged: documents with pragma errors are kept out of 'success' scenarios, fix runs that change nothing over documents with unfixable failures are not judged, injected OS errors are not used",
 ]
-PROBES = ["cat:success", "cat:no_files", "cat:cmdline", "cat:fixed", "cat:failures", "cat:system", "scheme_by:flag", "scheme_by:set", "scheme_by:json", "scheme_by:yaml", "scheme_by:pyproject", "scheme_by:config-arg", "scheme_by:flag+json", "scheme_by:flag+set", "scheme_by:flag+config-arg", "mixture_error_first", "mixture_error_middle", "mixture_error_last", "mixture_error_with_fixed", "corrupt_config"]
+PROBES = ["cat:success", "cat:no_files", "cat:cmdline", "cat:fixed", "cat:failures", "cat:system", "scheme_by:flag", "scheme_by:set", "scheme_by:json", "scheme_by:yaml", "scheme_by:pyproject", "scheme_by:config-arg", "scheme_by:flag+json", "scheme_by:flag+set", "scheme_by:flag+config-arg", "mixture_error_first", "mixture_error_middle", "mixture_error_last", "mixture_error_with_fixed", "corrupt_config", "stdin_application_error"]
 
 SCHEME_SOURCES = ["absent", "absent", "flag", "flag", "set", "json", "yaml", "pyproject", "config-arg", "flag+json", "flag+set", "flag+config-arg"]
 
@@ -262,6 +262,18 @@ def generate(rng, tier, index):
         sc["mode"] = mode
         sc["argv_tail"] = [mode] + names
         sc["expect"] = {"kind": mode}
+        if construction == "system-fault" and rng.random() < 0.3:
+            # the same application error, the document arriving on standard input
+            name = names[0]
+            sc["stdin"] = _files(sc)[name]["b64"]
+            sc["stdin_doc"] = name
+            sc["argv_tail"] = ["scan-stdin"]
+            sc["expect"] = {"kind": "stdin"}
+            sc["mode"] = "scan"
+            for entry in sc["plan"]:
+                entry["file"] = "<stdin>"
+                if entry["site"] == "parse":
+                    entry["ord"] = 1
     return sc
 
 
@@ -322,9 +334,16 @@ def evaluate(sc):
     if expect["kind"] == "fixed-category":
         category = expect["category"]
     elif expect["kind"] == "stdin":
-        facts = _doc_facts(sc, sc["stdin_doc"], "scan")
-        if facts and not facts["pragma"]:
-            category = "failures" if facts["failing"] else "success"
+        if sc.get("plan") or sc.get("poison"):
+            if sc.get("poison") or fired:
+                category = "system"
+                stats["stdin_application_error"] += 1
+            else:
+                stats["fault_not_fired"] += 1
+        else:
+            facts = _doc_facts(sc, sc["stdin_doc"], "scan")
+            if facts and not facts["pragma"]:
+                category = "failures" if facts["failing"] else "success"
     else:
         mode = expect["kind"]
         names = sorted(sc["files"])
@@ -434,6 +453,8 @@ def reductions(sc):
         yield candidate
     if sc["expect"]["kind"] in ("scan", "fix", "stdin"):
         for name in names:
+            if name in (sc.get("poison") or {}):
+                continue  # the poisoned bytes are what is processed, not this entry
             data = unb64(sc["files"][name]["b64"])
             for smaller in workload.shrink_bytes_candidates(data, limit=8):
                 candidate = copy.deepcopy(sc)
